@@ -85,8 +85,32 @@ def qual_of(fn_obj, owner=None):
 _FS_CACHE = {}
 
 
-def load(qual):
-    """qual: 'tlslite/utils/constanttime.py:ct_lt_u32' or '...:Class.method'."""
+def load(qual, fn_obj=None):
+    """qual: 'tlslite/utils/constanttime.py:ct_lt_u32' or '...:Class.method'.
+    fn_obj: the live function when the name alone is ambiguous (a property's setter
+    shares its qualified name with the getter): its code object selects the definition."""
+    if fn_obj is not None and getattr(_unwrap(fn_obj), '__code__', None) is not None:
+        _code = _unwrap(fn_obj).__code__
+        _first = _FS_CACHE.get(qual)
+        if _first is None:
+            _first = load(qual)
+        if _first.node.lineno <= _code.co_firstlineno + len(_first.node.decorator_list) + 1 and \
+                min([_first.node.lineno] + [d.lineno for d in _first.node.decorator_list]) <= _code.co_firstlineno \
+                <= _first.node.lineno:
+            return _first
+        key = (qual, _code.co_firstlineno)
+        if key in _FS_CACHE:
+            return _FS_CACHE[key]
+        tree = module_ast(_code.co_filename)
+        for n in ast.walk(tree):
+            if isinstance(n, ast.FunctionDef) and n.name == _code.co_name:
+                first = min([n.lineno] + [d.lineno for d in n.decorator_list])
+                if first <= _code.co_firstlineno <= n.lineno:
+                    seg = ast.get_source_segment(_SRC_CACHE[_code.co_filename], n) or ''
+                    fs = FuncSource(qual, n, _first.module, _code.co_filename, _first.cls, seg)
+                    _FS_CACHE[key] = fs
+                    return fs
+        raise KeyError('no AST for %s (line %d)' % (qual, _code.co_firstlineno))
     if qual in _FS_CACHE:
         return _FS_CACHE[qual]
     rel, name = qual.split(':')
